@@ -8,6 +8,7 @@
 import DltVerif.Model.Bits
 import DltVerif.Model.Encode
 import DltVerif.Lemmas.Bits
+import DltVerif.Spec.Codes
 
 namespace Dlt
 
@@ -52,25 +53,6 @@ theorem C14_htyp : ∀ b : BitVec 8,
         4 + (if (Spec.htypFields b).ecu then 4 else 0) + (if (Spec.htypFields b).sid then 4 else 0)
           + (if (Spec.htypFields b).tms then 4 else 0) + (if (Spec.htypFields b).ext then 10 else 0) := by
   decide +kernel
-
-/-- Spec: `MSIN = VERB + 2 MSTP + 16 MTIN` with the named sub-types of the standard -/
-def Spec.msinType (b : BitVec 8) : MessageType :=
-  let mstp := b.toNat / 2 % 8
-  let mtin := b.toNat / 16
-  let m8 := BitVec.ofNat 8 mtin
-  match mstp with
-  | 0 => .log (match mtin with
-      | 1 => .fatal | 2 => .error | 3 => .warn | 4 => .info | 5 => .debug | 6 => .verbose
-      | _ => .invalid m8)
-  | 1 => .applicationTrace (match mtin with
-      | 1 => .variable | 2 => .functionIn | 3 => .functionOut | 4 => .state | 5 => .vfb
-      | _ => .invalid m8)
-  | 2 => .networkTrace (match mtin with
-      | 0 => .invalid | 1 => .ipc | 2 => .can | 3 => .flexray | 4 => .most | 5 => .ethernet
-      | 6 => .someip | _ => .userDefined m8)
-  | 3 => .control (match mtin with
-      | 1 => .request | 2 => .response | _ => .unknown m8)
-  | t => .unknown (BitVec.ofNat 8 t) m8
 
 /-- all 256 message-info bytes: decode/re-encode is the identity and the decoded message
     type and verbose flag are the ones the layout prescribes -/
